@@ -593,6 +593,13 @@ pub fn drive(d: &mut Driver)
 		jobs.push(json!({"family": "casts", "type": ti}));
 	}
 	jobs.push(json!({"family": "other comparisons"}));
+	// family 7: functions and constants of the program that are named like something the compiler
+	// declares itself (the C functions behind the built-ins) or like each other
+	for i in 0..helper_name_programs().len()
+	{
+		jobs.push(json!({"family": "helper names", "index": i}));
+	}
+	d.bound("family 7: programs with functions named abort, write, snprintf (private, extern head) next to built-ins, and a constant sharing its name with a function", json!(helper_name_programs().len()));
 	// family 6
 	for len in 2..=3usize
 	{
@@ -695,6 +702,46 @@ fn execute(text: &str, desc_bytes: &[u8], w: &mut WorkerCtx) -> Option<(Verdict,
 }
 
 /// Compile, run, compare stdout and exit status.
+/// (name, program, expected output, expected exit status)
+fn helper_name_programs() -> Vec<(String, String, String, i32)>
+{
+	let mut out = Vec::new();
+	let main = |body: &str| format!("fn main() -> u8\n{{\n\tvar x: i32 = 1;\n{body}\tif x == 2\n\t{{\n\t\tpanic!(\"never\");\n\t}}\n\treturn: 4\n}}\n");
+	for helper in ["write", "snprintf", "abort", "memcpy"]
+	{
+		out.push((
+			format!("private function {helper} with a body"),
+			format!("fn {helper}(a: i32) -> i32\n{{\n\treturn: a + 1\n}}\n{}", main(&format!("\tprint!(\"v=\", {helper}(4), \" \", x, \"\\n\");\n"))),
+			"v=5 1\n".to_string(),
+			4,
+		));
+	}
+	out.push((
+		"extern head snprintf next to print!".to_string(),
+		format!("extern fn snprintf(buf: &[]char8, len: usize, fmt: []char8, v: i32) -> usize;\n{}", main("\tprint!(\"v=\", x, \"\\n\");\n")),
+		"v=1\n".to_string(),
+		4,
+	));
+	out.push((
+		"extern head abort next to panic!".to_string(),
+		format!("extern fn abort();\n{}", main("\tprint!(\"v=\", x, \"\\n\");\n")),
+		"v=1\n".to_string(),
+		4,
+	));
+	for flags in ["", "pub "]
+	{
+		for constant_first in [true, false]
+		{
+			let constant = "const value: i32 = 7;\n";
+			let function = format!("{flags}fn value() -> i32\n{{\n\treturn: value + 1\n}}\n");
+			let m = main("\tprint!(\"v=\", value(), \" \", value, \"\\n\");\n");
+			let text = if constant_first { format!("{constant}{function}{m}") } else { format!("{function}{m}{constant}") };
+			out.push((format!("constant and {flags}function of the same name"), text, "v=8 7\n".to_string(), 4));
+		}
+	}
+	out
+}
+
 fn expect_output(text: &str, expected: &str, status: i32, class: &str, replay: Value, w: &mut WorkerCtx) -> bool
 {
 	let desc = || {
@@ -843,6 +890,14 @@ pub fn work(spec: &Value, w: &mut WorkerCtx)
 			{
 				w.result.validated += cells - 1;
 			}
+		}
+		"helper names" =>
+		{
+			let i = spec["index"].as_u64().unwrap() as usize;
+			let (name, text, expected, status) = helper_name_programs()[i].clone();
+			w.result.states += 1;
+			w.result.transitions += 1;
+			expect_output(&text, &expected, status, &format!("helper names:{name}"), json!({"family": "helper names", "index": i}), w);
 		}
 		"other comparisons" =>
 		{
